@@ -113,6 +113,11 @@ __start__:
                 reset();
                 goto __force_restart__;
             }
+
+            // Стартовый байт совпадает со стоповым и строка пуста:
+            // повторный стартовый, а не пустой пакет. Ничего не делаем.
+            if (sline_empty(&line))
+                goto __continue__;
         }
         
         if (c == ctx.GSTUFF_STOP) 
